@@ -145,4 +145,100 @@ func TestCheckVsExample(t *testing.T) {
 	})
 }
 
+// A literal declared with {type: "@T"}: its example must obey the rules of the referenced scalar
+// type; a violation is reported at the referencing value (in the root text), not inside the type.
+type RefCase struct {
+	Schema   string `json:"schema"`
+	TypeText string `json:"type_text"`
+	Example  string `json:"example"`
+	Rule     string `json:"corrupted_rule,omitempty"`
+	Pos      int    `json:"value_offset"`
+	Corrupt  bool   `json:"corrupted"`
+}
+
+const chkRef = "type-rule-reference"
+
+func init() {
+	run.RegisterReplay(chkRef, func(t run.TB, raw json.RawMessage) {
+		var c RefCase
+		if err := json.Unmarshal(raw, &c); err != nil {
+			t.Fatalf("bad case: %v", err)
+		}
+		checkRef(t, c)
+	})
+}
+
+func checkRef(t run.TB, c RefCase) bool {
+	s, add := lib.Build(lib.Spec{Schema: c.Schema, Types: []lib.Named{{Name: "@t", Text: c.TypeText}}})
+	cr := lib.Check(s)
+	if add.Panic != "" || cr.Panic != "" {
+		run.Fail(t, chkRef, c, "panic: %v %v", add, cr)
+	}
+	if !add.OK {
+		return false
+	}
+	if !c.Corrupt {
+		if cr.OK {
+			if v := lib.Validate(s, []byte(c.Example)); !v.OK {
+				run.Fail(t, chkRef, c, "Check accepts the schema but validating its own example fails: %v", v)
+			}
+		}
+		return cr.OK
+	}
+	if cr.OK {
+		run.Fail(t, chkRef, c, "the example violates the %q rule of the type it declares, but Check accepts", c.Rule)
+	}
+	if !cr.HasPos || cr.Pos != c.Pos || (cr.File != "" && cr.File != "root") {
+		run.Fail(t, chkRef, c, "example violates %q of @t: Check fails (%v) at %d in file %q, the value starts at %d in the root text", c.Rule, cr, cr.Pos, cr.File, c.Pos)
+	}
+	return true
+}
+
+func TestTypeRuleReference(t *testing.T) {
+	run.SkipIfReplaying(t)
+	defer run.Done(t, chkRef)
+	rapid.Check(t, func(t *rapid.T) {
+		typ, _ := gen.ScalarCase(t, "ty")
+		if typ.Rule("enum") != nil || typ.Rule("const") != nil || typ.IsAny() {
+			return // keep to types whose kind is fixed by the example
+		}
+		typeText := string(gen.PrintSchema(typ, nil))
+		mk := func(val *ref.SNode) (*ref.SNode, *ref.SNode) {
+			n := &ref.SNode{Kind: ref.SLit, Lit: val.Lit, Tok: val.Tok, Str: val.Str, Rules: []ref.SRule{gen.StrRule("type", "@t")}}
+			var root *ref.SNode
+			switch rapid.IntRange(0, 2).Draw(t, "wrap") {
+			case 0:
+				root = n
+			case 1:
+				root = &ref.SNode{Kind: ref.SArr, Items: []*ref.SNode{{Kind: ref.SLit, Lit: ref.KNumber, Tok: "7"}, n}}
+			default:
+				root = &ref.SNode{Kind: ref.SObj, Props: []ref.SProp{{Key: "a", KeyTok: `"a"`, Val: &ref.SNode{Kind: ref.SLit, Lit: ref.KTrue, Tok: "true"}}, {Key: "b", KeyTok: `"b"`, Val: n}}}
+			}
+			return root, n
+		}
+		root, n := mk(typ)
+		schema := string(gen.PrintSchema(root, nil))
+		ex, _ := gen.ExampleJSON(root)
+		c := RefCase{Schema: schema, TypeText: typeText, Example: string(ex), Pos: n.Begin}
+		ok := checkRef(t, c)
+		run.Eval(chkRef, ok, schema, typeText)
+		if !ok {
+			run.Label("ref:check-rejected")
+			return
+		}
+		run.Label("ref:check-accepted")
+		bad, cor, okc := gen.Corrupt(t, typ, "cor")
+		if !okc || cor.Rule == "type" || bad.Lit != typ.Lit {
+			return
+		}
+		root2, n2 := mk(cor.Node)
+		schema2 := string(gen.PrintSchema(root2, nil))
+		c2 := RefCase{Schema: schema2, TypeText: typeText, Rule: cor.Rule, Pos: n2.Begin, Corrupt: true}
+		checkRef(t, c2)
+		run.Eval(chkRef, true, schema2, typeText)
+		run.Label("ref-cnv:" + cor.Rule)
+		run.Sample(chkRef, c2)
+	})
+}
+
 func TestReplay(t *testing.T) { run.TestReplay(t) }
